@@ -2,6 +2,7 @@ import N0Verif.Proofs.XPathSelect2
 import N0Verif.Proofs.XPathSelect3
 import N0Verif.Proofs.XPathAudit
 import N0Verif.Proofs.XPathListDeep
+import N0Verif.Proofs.XPathListDeepSp
 /-!
 # C06 — wildcard and predicate steps select exactly the matching elements, in order
 
@@ -1414,6 +1415,103 @@ example : ∃ N, ∀ fuel ≥ N,
   refine ⟨N, fun fuel hfuel => ⟨?_, ?_⟩⟩
   · exact (h fuel hfuel [] (by simp) _ (List.mem_cons_self ..)).2.1
   · exact (h fuel hfuel slash (by simp) _ (List.mem_cons_of_mem _ (List.mem_cons_self ..))).2.2
+
+/-! ### … with the position `P` of the record list in ANY spelling (worker `c06spell`)
+
+`P = renderSp lead steps`: prefix none, `/` or `//`; every index written as `i`, `-k`, `last()`, `last()-k` or `i+j`, attached
+(`a[1]`, `[2][1]`) or as a step of its own (`a/[1]`, `[2]/[1]`); `stepsGet` is plain Python indexing along the steps (negative
+indexes from the end).  The root being a list, the first step is an index.  Lemmas: `Proofs/XPathListDeepSp.lean`. -/
+
+/-- **C06 (fan-out, record list below a list root, any spelling, string level).**  For an n0list root and any spelling of a path
+that plain Python indexing follows from the root to the list `rs` of dict records, `P[*]/f` and the shorthand `P/f` return
+`[r[f] for r in rs if f in r]` through `get` (the default when empty), item access (`IndexError` when empty) and `first` (a single
+match unwrapped); the tree is unchanged. -/
+theorem C06_star_list_deep_spelled (cls : Cls) (xs : List Val) (lead : Lead) (steps : List StepSp) (f : Str) (lc : Cls)
+    (rs : List Val) (d : Val) (hp : PlainSteps steps) (hne : steps ≠ [])
+    (hget : stepsGet (.list cls xs) steps = some (.list lc rs)) (hf : PlainKey f) (hrs : ∀ r ∈ rs, isDict r = true)
+    (fuel : Nat) (hfuel : fuel ≥ 2 * steps.length + rs.length + 6) :
+    ∀ xp ∈ [renderSp lead steps ++ bracket ['*'] ++ slash ++ f, renderSp lead steps ++ slash ++ f],
+      XPath.get fuel (.list cls xs) xp d = (.list cls xs, .ok (selected (selectF f rs) d)) ∧
+      getItem fuel (.list cls xs) xp = (.list cls xs, selectedItem (selectF f rs)) ∧
+      first fuel (.list cls xs) xp d = (.list cls xs, .ok (firstOf (selectF f rs) d)) := by
+  intro xp hxp
+  have := xlds_star_string cls xs lead steps f lc rs d hp hne hget hf hrs fuel hfuel xp hxp
+  simp only [selectF_eq] at this
+  exact this
+
+/-- **C06 (predicates, record list below a list root, any spelling, string level).**  As above for `P[k op v]/f` and
+`P/k[text() op v]/../f` - any operator and literal spelling: `f` of exactly the records that have `k` and whose `k` passes the
+comparison, in list order, through `get`, item access and `first`; the tree is unchanged.  (The `'..'` re-resolves the text the
+walk has written - evaluated indexes: `[last()]` comes back as `/[-1]` - from the root list.) -/
+theorem C06_pred_list_deep_spelled (cls : Cls) (xs : List Val) (lead : Lead) (steps : List StepSp)
+    (k f opx op vq v : Str) (lc : Cls) (rs : List Val) (d : Val) (hp : PlainSteps steps) (hne : steps ≠ [])
+    (hget : stepsGet (.list cls xs) steps = some (.list lc rs)) (hk : FieldKey k) (hf : PlainKey f) (hop : OpSpell opx op)
+    (hlit : LitSpell vq v) (hv : PlainLit v) (hrs : ∀ r ∈ rs, isDict r = true) (hg : ComparableK k v rs)
+    (fuel : Nat) (hfuel : fuel ≥ 6 * steps.length + rs.length + 14) :
+    ∀ xp ∈ [renderSp lead steps ++ bracket (k ++ opx ++ vq) ++ slash ++ f,
+            renderSp lead steps ++ slash ++ k ++ bracket (sTextFn ++ opx ++ vq) ++ slash ++ ['.', '.'] ++ slash ++ f],
+      XPath.get fuel (.list cls xs) xp d
+        = (.list cls xs, .ok (selected (selectWhere k f (condTest op (.str v)) rs) d)) ∧
+      getItem fuel (.list cls xs) xp = (.list cls xs, selectedItem (selectWhere k f (condTest op (.str v)) rs)) ∧
+      first fuel (.list cls xs) xp d = (.list cls xs, .ok (firstOf (selectWhere k f (condTest op (.str v)) rs) d)) := by
+  intro xp hxp
+  have := xlds_pred_string cls xs lead steps k f opx op vq v lc rs d hp hne hget hk hf hop hlit hv hrs hg.guard fuel hfuel xp hxp
+  simp only [selectWhere_eq] at this
+  exact this
+
+/-- spellings of the three positions of `flatList` in `deepListRoot`: `[-2]/a/b`, `[last()]/[1]`, `[0+1]/c[-1]` -/
+def deepSpA : List StepSp := [.idx (.neg 2) false, .key ['a'], .key ['b']]
+def deepSpL : List StepSp := [.idx .last true, .idx (.lit 1) true]
+def deepSpC : List StepSp := [.idx (.plus 0 1) false, .key ['c'], .idx (.neg 1) false]
+example : renderSp .rel deepSpA = ['[', '-', '2', ']', '/', 'a', '/', 'b'] := by decide
+example : renderSp .one deepSpL = ['/', '[', 'l', 'a', 's', 't', '(', ')', ']', '/', '[', '1', ']'] := by decide
+example : renderSp .two deepSpC = ['/', '/', '[', '0', '+', '1', ']', '/', 'c', '[', '-', '1', ']'] := by decide
+
+/-- the model on such spellings, evaluated with the real code (same tree as `C06_star_list_deep_example`; the implementation
+returns the same values): `[-2]/a/b[*]/f`, `//[-2]/a/b/f`, `/[last()]/[1][k=2]/f`, `[-1][last()]/k[text()=2]/../f`,
+`//[0+1]/c[-1][k!=2]/f`, and the miss `/[last()]/[1][k=3]/f` -/
+theorem C06_list_deep_spelled_example :
+    (XPath.getItem 80 deepListRoot ['[', '-', '2', ']', '/', 'a', '/', 'b', '[', '*', ']', '/', 'f']).2
+      = .ok (.list .n0 [.str ['a'], .str ['b']]) ∧
+    (XPath.getItem 80 deepListRoot ['/', '/', '[', '-', '2', ']', '/', 'a', '/', 'b', '/', 'f']).2
+      = .ok (.list .n0 [.str ['a'], .str ['b']]) ∧
+    (XPath.getItem 80 deepListRoot ['/', '[', 'l', 'a', 's', 't', '(', ')', ']', '/', '[', '1', ']', '[', 'k', '=', '2', ']', '/', 'f']).2
+      = .ok (.list .n0 [.str ['b']]) ∧
+    (XPath.first 80 deepListRoot ['[', '-', '1', ']', '[', 'l', 'a', 's', 't', '(', ')', ']', '/', 'k', '[', 't', 'e', 'x', 't', '(', ')', '=', '2', ']',
+      '/', '.', '.', '/', 'f'] (.str ['D'])).2 = .ok (.str ['b']) ∧
+    (XPath.getItem 80 deepListRoot ['/', '/', '[', '0', '+', '1', ']', '/', 'c', '[', '-', '1', ']', '[', 'k', '!', '=', '2', ']', '/', 'f']).2
+      = .ok (.list .n0 [.str ['a']]) ∧
+    (XPath.get 80 deepListRoot ['/', '[', 'l', 'a', 's', 't', '(', ')', ']', '/', '[', '1', ']', '[', 'k', '=', '3', ']', '/', 'f'] (.str ['D'])).2
+      = .ok (.str ['D']) ∧
+    (XPath.getItem 80 deepListRoot ['/', '[', 'l', 'a', 's', 't', '(', ')', ']', '/', '[', '1', ']', '[', 'k', '=', '3', ']', '/', 'f']).2
+      = .error .IndexError := by
+  decide +kernel
+/-- … and through the theorems (non-vacuity): `[-2]/a/b[*]/f` and `[-2]/a/b/f` (merged last token `b[*]`) -/
+example : ∀ xp ∈ [renderSp .rel deepSpA ++ bracket ['*'] ++ slash ++ ['f'], renderSp .rel deepSpA ++ slash ++ ['f']],
+    XPath.getItem 40 deepListRoot xp = (deepListRoot, .ok (.list .n0 [.str ['a'], .str ['b']])) := by
+  intro xp hxp
+  exact ((C06_star_list_deep_spelled .n0 _ .rel deepSpA ['f'] .n0 flatList .none ⟨plainKey_a, ⟨by decide, by decide, by decide⟩, trivial⟩
+    (by simp [deepSpA]) (show stepsGet deepListRoot deepSpA = some (.list .n0 flatList) by decide) plainKey_f (by decide) 40
+    (by decide)) xp hxp).2.1
+/-- `/[last()]/[1][k=2]/f` and `/[last()]/[1]/k[text()=2]/../f` (indexes only, each a step of its own, the first one `last()`) -/
+example : ∀ xp ∈ [renderSp .one deepSpL ++ bracket (['k'] ++ ['='] ++ ['2']) ++ slash ++ ['f'],
+                  renderSp .one deepSpL ++ slash ++ ['k'] ++ bracket (sTextFn ++ ['='] ++ ['2']) ++ slash ++ ['.', '.'] ++ slash ++ ['f']],
+    XPath.first 60 deepListRoot xp (.str ['D']) = (deepListRoot, .ok (.str ['b'])) := by
+  intro xp hxp
+  have := (C06_pred_list_deep_spelled .n0 _ .one deepSpL ['k'] ['f'] ['='] _ _ ['2'] .n0 flatList (.str ['D']) trivial
+    (by simp [deepSpL]) (show stepsGet deepListRoot deepSpL = some (.list .n0 flatList) by decide) fieldKey_k plainKey_f .eq1
+    (.bare ['2']) ⟨by decide, by decide, by decide⟩ (by decide) (by decide) 60 (by decide) xp hxp).2.2
+  rw [show selectWhere ['k'] ['f'] (condTest ['=', '='] (.str ['2'])) flatList = [.str ['b']] by decide] at this
+  exact this
+/-- `//[0+1]/c[-1][k!=2]/f` (an attached negative index below a key, the condition a token of its own) -/
+example : XPath.get 60 deepListRoot (renderSp .two deepSpC ++ bracket (['k'] ++ ['!', '='] ++ ['2']) ++ slash ++ ['f']) .none
+    = (deepListRoot, .ok (.list .n0 [.str ['a']])) := by
+  have := (C06_pred_list_deep_spelled .n0 _ .two deepSpC ['k'] ['f'] ['!', '='] _ _ ['2'] .n0 flatList .none
+    ⟨⟨by decide, by decide, by decide⟩, trivial⟩
+    (by simp [deepSpC]) (show stepsGet deepListRoot deepSpC = some (.list .n0 flatList) by decide) fieldKey_k plainKey_f .ne
+    (.bare ['2']) ⟨by decide, by decide, by decide⟩ (by decide) (by decide) 60 (by decide) _ (List.mem_cons_self ..)).1
+  rw [show selectWhere ['k'] ['f'] (condTest ['!', '='] (.str ['2'])) flatList = [.str ['a']] by decide] at this
+  exact this
 
 /-- **C06 (chained selections, record list below a list root).**  For an n0list root and the list `rs` of dict records at the
 canonical position `P = [n]…` below it, `P[k1 op v1]/items[k2 op v2]/f` (with or without the leading '/'): `get` and item access
